@@ -11,6 +11,13 @@
   #define VERIF_UNREACHABLE() __builtin_unreachable()
   #define __CPROVER_assert(c, m) ((c) ? (void)0 : verif_native_assert_fail(m))
   #define __CPROVER_assume(c) ((void)0)
+  #define __CPROVER_requires(...)
+  #define __CPROVER_ensures(...)
+  #define __CPROVER_assigns(...)
+  #define __CPROVER_frees(...)
+  #define __CPROVER_loop_invariant(...)
+  #define __CPROVER_decreases(...)
+  #define __CPROVER_havoc_object(x) ((void)0)
 #else
   #define VERIF_ASSERT_FAIL(msg) (__CPROVER_assert(0, msg), __CPROVER_assume(0))
   #define VERIF_UNREACHABLE() (__CPROVER_assert(0, "unreachable reached"), __CPROVER_assume(0))
